@@ -4,6 +4,7 @@ H18 / T-all: real perform_vehicle_state_updates with three modelled vehicles con
 Each vehicle's role is symbolic:
    0 charging, not full     1 charging, full (leaves this step)     2 queueing with symbolic enqueue time
    3 idle at the station    4 arriving (DispatchStation with exhausted route)
+   5 queueing with symbolic enqueue time, battery within the "full" tolerance but below 100 %
 plus symbolic installed plugs, ghost chargers and ghost queue members (unmodelled vehicles).
 Vehicle ids are "v0", "v1", "v10" (lexicographic trap for the id tie-break).
 
@@ -31,7 +32,7 @@ VIDS = ("v0", "v1", "v10")
 
 
 def _role(i):
-    for k in range(5):
+    for k in range(6):
         if i == k:
             return k
     return None
@@ -43,7 +44,9 @@ def _spec(vid, role, enq):
     if role == 1:
         return A.VSpec(vid, 3, 0, plug="LEVEL_2", energy=50.0)
     if role == 2:
-        return A.VSpec(vid, 4, 0, plug="LEVEL_2", energy=10.0, enq=enq)
+        return A.VSpec(vid, 4, 0, plug="LEVEL_2", energy=10.0, enq=stubs.mk_time(enq))
+    if role == 5:
+        return A.VSpec(vid, 4, 0, plug="LEVEL_2", energy=49.95, enq=stubs.mk_time(enq))
     if role == 3:
         return A.VSpec(vid, 0, 0, energy=10.0)
     return A.VSpec(vid, 7, 0, plug="LEVEL_2", energy=10.0)
@@ -56,13 +59,13 @@ def h_fifo(r1: int, r2: int, t0: int, t1: int, t2: int, tot: int, g: int, q: int
     """
     CASE = role of v0 (0..4).  `perm` is the order in which SimulationState.vehicles yields its values (a hash-order
     stand-in: the result must respect (enqueue time, id) whatever it is).
-    pre: 0 <= r1 <= 4 and 0 <= r2 <= 4 and 0 <= perm <= 2
+    pre: 0 <= r1 <= 5 and 0 <= r2 <= 5 and 0 <= perm <= 1
     pre: 0 <= t0 <= 100000 and 0 <= t1 <= 100000 and 0 <= t2 <= 100000
     post: _
     """
-    roles = (CASE % 5, _role(r1), _role(r2))
+    roles = (CASE % 6, _role(r1), _role(r2))
     order = None
-    for k, o in enumerate(((0, 1, 2), (2, 1, 0), (1, 2, 0))):  # sorted, reversed, rotated
+    for k, o in enumerate(((0, 1, 2), (2, 1, 0))):  # sorted, reversed
         if perm == k:
             order = o
     if order is None:
@@ -92,7 +95,7 @@ def h_fifo(r1: int, r2: int, t0: int, t1: int, t2: int, tot: int, g: int, q: int
     ok = True
     for i in range(3):
         for j in range(3):
-            if i == j or roles[i] != 2 or roles[j] != 2:
+            if i == j or roles[i] not in (2, 5) or roles[j] not in (2, 5):
                 continue
             # j left the queue and charges, i is still queueing
             if k2[j] == 3 and k2[i] == 4:
@@ -105,7 +108,7 @@ def h_fifo(r1: int, r2: int, t0: int, t1: int, t2: int, tot: int, g: int, q: int
 def h_fifo_reach(r1: int, r2: int, t0: int, t1: int, t2: int, tot: int, g: int, q: int, perm: int) -> bool:
     """
     reachability twin (must be refuted; run with CASE 1): two vehicles queueing, exactly one of them gets the plug
-    pre: 0 <= r1 <= 4 and 0 <= r2 <= 4 and 0 <= perm <= 2
+    pre: 0 <= r1 <= 5 and 0 <= r2 <= 5 and 0 <= perm <= 1
     pre: 0 <= t0 <= 100000 and 0 <= t1 <= 100000 and 0 <= t2 <= 100000
     post: _
     """
